@@ -12,7 +12,8 @@ export GOFLAGS=-mod=mod GOPROXY=off GOSUMDB=off GOTOOLCHAIN=local GOWORK=off
 bad=0
 for p in $PROPS; do
   out=$(ZL_REPO=$T ZL_VERIF=$T/.ev /verif/bin/zlcheck -property $p -tier quick 2>&1)
-  if echo "$out" | grep -q "^VIOLATION"; then
+  rc=$?
+  if echo "$out" | grep -q "^VIOLATION" || ! echo "$out" | grep -q "^property="; then
     bad=$((bad+1)); echo "--- $p:"; echo "$out" | grep "^REPORT" | sed "s#$T/##g" | cut -c1-330 | head -6
   fi
 done
